@@ -76,6 +76,12 @@ def _payload(rnd):
     r = rnd.random()
     if r < 0.12:
         return b""
+    if r < 0.2:
+        # contents that look like (or are) compressed streams themselves
+        body = rnd.randbytes(rnd.randint(0, 60))
+        return rnd.choice([gzip.compress(body), b"\x1f\x8b" + body, b"\x1f\x8b",
+                           b"\x1f\x8b\x08\x00" + body, b"\x78\x9c" + body,
+                           b"PK\x03\x04" + body])
     if r < 0.3:
         return b'{"k":' + str(rnd.randrange(10 ** 6)).encode() + b"}"
     if r < 0.4:
@@ -300,9 +306,16 @@ def run_case(case):
         # ---- confinement
         if not v:
             bname = os.path.basename(base)
+            # a sibling directory whose path has the dataset path as a string prefix
+            sibling = base + "_backup"
+            os.makedirs(sibling, exist_ok=True)
+            with open(os.path.join(sibling, "info"), "wb") as f:
+                f.write(b"SIBLING")
             escapes = ["../secret", "a/../../secret", "../" + bname + "/../secret",
                        sentinel, "/etc/hostname", "dir/../../secret", "..",
-                       "../newfile", "a/b/../../../newdir/x", "./../secret"]
+                       "../newfile", "a/b/../../../newdir/x", "./../secret",
+                       os.path.join(sibling, "info"), os.path.join(sibling, "new"),
+                       base + "x/y", "../" + bname + "_backup/info"]
             before_parent = sorted(os.listdir(top))
             for esc in escapes:
                 for op in ("fetch_file", "store_file", "store_file_ow", "file_exists"):
@@ -329,7 +342,10 @@ def run_case(case):
                                and "/site-packages/" not in p and not p.startswith("/root/.pyenv")]
                     with open(sentinel, "rb") as f:
                         sent = f.read()
+                    with open(os.path.join(sibling, "info"), "rb") as f:
+                        sib = f.read()
                     if res[0] != "raised" or outside or sent != b"SENTINEL" \
+                            or sib != b"SIBLING" or sorted(os.listdir(sibling)) != ["info"] \
                             or sorted(os.listdir(top)) != before_parent:
                         v.append({"kind": "path-escapes-dataset-directory",
                                   "detail": f"{ctx}: {op}({esc!r}) -> {res[0]} "
